@@ -1,8 +1,10 @@
 (* C01 — statements only. *)
 From Coq Require Import Reals List ZArith.
 From TFV Require Import Base.RBase Shape.LineShapes Rot.Wigner Amp.Dalitz3 Amp.Dalitz3_proofs Amp.Unitary Amp.Unitary_proofs
-     Kin.Boost Kin.Boost_proofs Amp.Frame_proofs.
+     Kin.Boost Kin.Boost_proofs Amp.Frame_proofs Amp.Cascade.
+From TFV Require Rot.DHom Amp.Cascade_proofs.
 Import ListNotations.
+Import TFV.Rot.DHom.
 Open Scope R_scope.
 
 (* ---- spinless three-body decays: COMPLETE statement of C01 (any number of interfering resonances,
@@ -60,10 +62,39 @@ Theorem C01_id_swap_invariant :
 Proof. exact id_swap_invariant. Qed.
 Print Assumptions C01_id_swap_invariant.
 
-(* FULL statement for cascades with spin (NOT proved; kept visible).  Missing: the transformation
-   law of the helicity angles under a common rotation (azimuth shift at the lower vertices), the
-   group law D(R1 R2) = D(R1) D(R2), and invariance of the alignment rotations.  These layers are
-   tied to the code and the implementation is compared with itself at p and Lambda p. *)
-Definition C01_cascade_frame_invariant_statement : Prop :=
-  forall j2 alpha beta gamma (X : Z -> C), (0 <= j2 <= 8)%Z ->
-    zsum (m_range j2) (fun lam => Cnorm2 (D_apply j2 alpha beta gamma X lam)) = hel_norm2 j2 X.
+(* Cascades WITH spin, one topology (A -> R c, R -> ... for any number of interfering resonances R of any
+   spin, any subtree amplitude below R): if the common rotation G = Euler a b g relates the helicity
+   rotations of the first vertex before and after by  G * R(phi1,theta1,0) = R(phi1',theta1',0) * Rz(psi)
+   (an identity of SU(2) matrices), and the azimuth of R's own decay is shifted by that residual psi
+   (all other angles of the subtree are defined relative to R's helicity frame and do not change), the
+   density summed over the parent helicity is unchanged - for every spectator helicity lc and every
+   fixed helicities of the subtree.  The geometric hypothesis is tied to the angles the code computes at
+   p and at G p (harness layer "geometry"). *)
+Theorem C01_cascade_rotation_invariant :
+  forall J2 lc a b g phi1 th1 phi1' th1' psi phi2 (rs : list res),
+  (0 <= J2 <= 8)%Z ->
+  Forall (fun r => parity_ok J2 lc r /\ covariant (r_B r)) rs ->
+  mmul (Euler a b g) (Euler phi1 th1 0) = Euler phi1' th1' psi ->
+  hel_norm2 J2 (topo_amp J2 lc phi1' th1' (phi2 + psi) rs) = hel_norm2 J2 (topo_amp J2 lc phi1 th1 phi2 rs).
+Proof. exact Cascade_proofs.cascade_rotation_invariant. Qed.
+Print Assumptions C01_cascade_rotation_invariant.
+
+(* the subtree of a two-step cascade, h2 * D^{jR*}_{lR, la-lb}(phi2, theta2, 0) * (anything independent of phi2),
+   has the required covariance - for every spin jR, no bound *)
+Theorem C01_vertex_subtree_covariant : forall jR2 nu2 th2 rest, covariant (vertex_B jR2 nu2 th2 rest).
+Proof. exact Cascade_proofs.vertex_B_covariant. Qed.
+Print Assumptions C01_vertex_subtree_covariant.
+
+Example C01_cascade_hypotheses_satisfiable :
+  (0 <= 2 <= 8)%Z /\
+  Forall (fun r => parity_ok 2 0 r /\ covariant (r_B r))
+         [mkRes 2 (fun l => (IZR l, 1)) (vertex_B 2 0 (1/2) (fun _ => (1, 0)));
+          mkRes 4 (fun l => (1, IZR l)) (vertex_B 4 2 (1/2) (fun l => (IZR l, 0)))] /\
+  mmul (Euler 1 2 3) (Euler 0 0 0) = Euler 1 2 3.
+Proof. exact Cascade_proofs.cascade_hypotheses_satisfiable. Qed.
+
+(* NOT proved (kept visible): (i) the geometric hypothesis itself from the kinematic model (that the polar angles
+   of G n and of n are related by such a psi: a statement about the covering SU(2) -> SO(3)); (ii) several
+   topologies interfering, where the spectator-dependent phase e^{i lc psi} is compensated by the alignment
+   rotations (C02 treats a common change of the alignment element abstractly); (iii) boosts (the Wigner rotation of
+   the final-state helicities).  Those are decided by the certified comparison of the code with itself at p and Lambda p. *)
